@@ -86,6 +86,8 @@ class RunBundler:
         self._strict_pre_declare = strict_pre_declare
         # state stolen from the RE
         self.bundling = False  # if we are in the middle of bundling readings
+        # an open bundle was cancelled by a rewind and the plan has not opened a new one since
+        self._bundle_cancelled_by_rewind = False
         self._bundle_name = None  # name given to event descriptor
         self._run_start_uid = None  # The (future) runstart uid
         self._objs_read: deque[HasName] = deque()  # objects read in one Event
@@ -332,6 +334,7 @@ class RunBundler:
         self._asset_docs_cache.clear()
         self._objs_read.clear()
         self.bundling = True
+        self._bundle_cancelled_by_rewind = False
         command, obj, args, kwargs, _ = msg
         try:
             self._bundle_name = kwargs["name"]
@@ -521,6 +524,8 @@ class RunBundler:
         # This is needed to 'cancel' an open bundling (e.g. create) if
         # the pause happens after a 'checkpoint', after a 'create', but
         # before the paired 'save'.
+        if self.bundling:
+            self._bundle_cancelled_by_rewind = True
         self.bundling = False
 
     async def unmonitor(self, msg):
@@ -681,6 +686,13 @@ class RunBundler:
             Msg('drop')
         """
         if not self.bundling:
+            if self._bundle_cancelled_by_rewind:
+                # The bundle this 'drop' is meant for was already cancelled by a rewind (a pause or
+                # suspension struck inside it) and the plan is being stopped or aborted instead of
+                # replayed: its clean-up (e.g. trigger_and_read) drops a bundle that is gone already.
+                self._bundle_cancelled_by_rewind = False
+                self._bundle_name = None
+                return
             raise IllegalMessageSequence(
                 "A 'create' message must be sent, to "
                 "open an event bundle, before that "
